@@ -721,7 +721,7 @@ package render
 // C07, top level: the root cube / square covers the (enlarged) bounding box
 
 //@ func marchingCubesOctree
-//@   property C07
+//@   property C07 C06
 //@   id root-covers-the-box
 //@   requires resolution > 0
 //@   prelet bb = s.BoundingBox().ScaleAboutCenter(1.01)
@@ -735,7 +735,7 @@ package render
 //@ end
 
 //@ func marchingSquaresQuadtree
-//@   property C07
+//@   property C07 C08
 //@   id root-covers-the-box
 //@   requires resolution > 0
 //@   prelet bb = s.BoundingBox().ScaleAboutCenter(1.01)
